@@ -523,11 +523,13 @@ def acceptance(ctx, mode, cases):
         if strict:
             ctx.count("mutation:" + (mop if not mop.startswith("delete-top-") else "delete-top"))
         js = val[kind].is_valid(doc)
+        pd_errs = []
         try:
             model[kind].model_validate_json(json.dumps(doc))
             pd = True
-        except ValidationError:
+        except ValidationError as ve:
             pd = False
+            pd_errs = ve.errors()
         rec = {"kind": kind, "mutation": mop, "mode": mode, "rng": case["rng"]}
         if case.get("at"):
             rec["at"] = case["at"]
@@ -539,6 +541,12 @@ def acceptance(ctx, mode, cases):
             nested = mop == "unknown-key-nested" or (kind == "package" and mop == "unknown-key")
             if strict and nested and not js and pd:
                 key = "strict-rebuild-leaves-stale-nested-validators"
+            # second open finding, by mechanism: the ONLY thing the decoder objects to is a missing tag `b` of a type
+            # definition's bound, which the published schema does not require (the tag has a default there)
+            if js and not pd and pd_errs and all(
+                    er.get("type") == "union_tag_not_found" and "'b'" in str((er.get("ctx") or {}).get("discriminator"))
+                    for er in pd_errs):
+                key = "typedef-bound-tag-defaulted-in-schema-required-by-decoder"
             ctx.disc(key, f"acceptance-disagreement[{mode}.{mop}]", rec, {"published-schema": js},
                      {"pydantic": pd}, stratum="acceptance", case=rec)
         elif exp is not None and js != exp:
